@@ -17,11 +17,19 @@ RULE = (
 )
 ASSUMPTIONS = [
     'virtual time (zero CPU time between suspension points); bus iteration order generated',
-    'no firing timeouts, no capacity overflow, no stop(), no eviction below in-flight (own properties)',
+    'event timeouts fire in one scenario in six (events whose processing an awaiting, timed-out ancestor interrupted are left to C10); no capacity overflow, no stop(), no eviction below in-flight (own properties)',
     'same-handler recursion deeper than the 2-level guard is not generated here',
 ]
 
-P_MAIN = Profile(raises=0.2, dual=0.15, actor_ops=['disp', 'disp', 'disp', 'dispany', 'sleep', 'await', 'yield', 'redisp', 'redisp', 'burst'], maxdepth=[2, 2, 3], wild=0.3)
+@st.composite
+def _timeouts(draw):
+    # one scenario in six has short event timeouts: a handler that times out must not make a later handler of the event go missing
+    if draw(st.integers(0, 5)) != 0:
+        return {}
+    return {str(t): draw(st.sampled_from([0.13, 0.27, 0.41])) for t in range(4) if draw(st.booleans())}
+
+
+P_MAIN = Profile(timeouts=_timeouts(), raises=0.2, dual=0.15, actor_ops=['disp', 'disp', 'disp', 'dispany', 'sleep', 'await', 'yield', 'redisp', 'redisp', 'burst'], maxdepth=[2, 2, 3], wild=0.3)
 
 
 def budget(tier):
